@@ -956,7 +956,7 @@ class bpch1(bpch_base):
                     myl[9:49].strip(),
                     dict(offset=int(myl[:8]), desc=myl[50:].strip())
                 )
-                for myl in diaginfo.read().strip().split('\n')
+                for myl in diaginfo.read().strip('\n').split('\n')
                 if myl[0] != '#'
             ])
         else:
